@@ -565,6 +565,24 @@ func (ex *Exec) evalCall(e *Expr, env *Env) Val {
 				unsup("contract: typeis needs a type name string")
 			}
 			return ex.boolV(ts.Eq(iv.Tag, ex.typeTagByName(tn.Name)))
+		case "visitedcount":
+			// visitedcount(n): how many keys the n-th map iteration of this frame has visited so far
+			if env.fr == nil || len(args) != 1 {
+				unsup("contract: visitedcount(n)")
+			}
+			n := ex.eval1(args[0], env).(Scalar)
+			if n.Const == nil {
+				unsup("contract: iteration ordinal must be a constant")
+			}
+			idx := int(n.Const.Int64())
+			if idx < 0 || idx >= len(env.fr.iters) {
+				unsup("contract: no map iteration %d", idx)
+			}
+			iv, ok := ex.iterOf(env.fr, env.fr.iters[idx])
+			if !ok || iv.Count == nil {
+				unsup("contract: iterator not found")
+			}
+			return ex.st.cells[iv.Count]
 		case "visited", "iterdom":
 			// visited(k) / iterdom(k): state of the innermost map iteration of this frame; visited(n, k) names the n-th
 			if env.fr == nil || len(env.fr.iters) == 0 {
@@ -593,7 +611,12 @@ func (ex *Exec) evalCall(e *Expr, env *Env) Val {
 			if c, isConst := kv.(Scalar); isConst && c.T == nil {
 				kv = Scalar{T: ex.constTerm(c.Const, kt), Typ: kt}
 			}
-			k := ex.keyTerm(kv, kt)
+			var k *Term
+			if rp, isID := kv.(RefPtr); isID && rp.Elem == nil {
+				k = rp.Ref // an abstract key identity (forall kid ref :: ...)
+			} else {
+				k = ex.keyTerm(kv, kt)
+			}
 			if f.Name == "iterdom" {
 				return ex.boolV(ts.Select(iv.Dom, k))
 			}
